@@ -10,6 +10,7 @@ Expression descr.:  ["and", e...] ["or", e...] ["not", e] ["implies", a, b] ["if
                     ["o", name] ["int", n] ["real", "n/d"] ["bool", b]
                     ["exists", [[v, type]...], body] ["forall", [[v, type]...], body]
 """
+import json
 from collections import OrderedDict
 from fractions import Fraction
 
@@ -82,6 +83,9 @@ class World:
 
     # -- types
     def type(self, t):
+        if not (isinstance(t, list) and t and isinstance(t[0], str)) or (t[0] in ("int", "real") and len(t) != 3) \
+                or (t[0] == "user" and len(t) != 2):
+            raise BuildError(f"bad type {t!r}")
         k = t[0]
         if k == "bool":
             return self.tm.BoolType()
@@ -96,7 +100,9 @@ class World:
         raise BuildError(f"bad type {t!r}")
 
     def variable(self, name, t):
-        key = (name, tuple(t))
+        if not isinstance(name, str) or not isinstance(t, list):
+            raise BuildError(f"bad variable {name!r} {t!r}")
+        key = (name, json.dumps(t))
         if key not in self.variables:
             self.variables[key] = Variable(name, self.type(t), self.env)
         return self.variables[key]
@@ -128,9 +134,27 @@ class World:
         if not isinstance(e, list) or not e or not isinstance(e[0], str):
             raise BuildError(f"bad expression {e!r}")
         k = e[0]
+        ARITY = {"not": 1, "implies": 2, "iff": 2, "eq": 2, "le": 2, "lt": 2, "ge": 2, "gt": 2,
+                 "minus": 2, "div": 2, "p": 1, "v": 2, "o": 1, "int": 1, "real": 1, "bool": 1,
+                 "exists": 2, "forall": 2}
+        if k in ARITY and len(e) != ARITY[k] + 1:
+            raise BuildError(f"malformed expression {e!r}")
+        if k in ("f", "if") and (len(e) < 2 or not isinstance(e[1], str)):
+            raise BuildError(f"malformed expression {e!r}")
+        if k in ("exists", "forall", ):
+            if not (isinstance(e[1], list) and e[1] and all(isinstance(x, list) and len(x) == 2 for x in e[1])):
+                raise BuildError(f"malformed quantifier {e!r}")
+        if k in ("p", "o") and not isinstance(e[1], str):
+            raise BuildError(f"malformed expression {e!r}")
+        if k == "int" and (isinstance(e[1], bool) or not isinstance(e[1], int)):
+            raise BuildError(f"malformed expression {e!r}")
+        if k == "real" and not isinstance(e[1], str):
+            raise BuildError(f"malformed expression {e!r}")
+        if k == "bool" and not isinstance(e[1], bool):
+            raise BuildError(f"malformed expression {e!r}")
         sub = lambda i: self.expr(e[i], scope)
         subs = lambda: [self.expr(x, scope) for x in e[1:]]
-        try:
+        if True:
             if k == "and":
                 return em.And(subs())
             if k == "or":
@@ -182,17 +206,17 @@ class World:
             if k == "int":
                 return em.Int(e[1])
             if k == "real":
-                return em.Real(Fraction(e[1]))
+                try:
+                    fr = Fraction(e[1])
+                except (ValueError, ZeroDivisionError):
+                    raise BuildError(f"bad real {e!r}")
+                return em.Real(fr)
             if k == "bool":
                 return em.Bool(e[1])
             if k in ("exists", "forall"):
                 vs = [self.variable(n, t) for n, t in e[1]]
                 body = self.expr(e[2], scope)
                 return em.Exists(body, *vs) if k == "exists" else em.Forall(body, *vs)
-        except (IndexError, KeyError, TypeError) as ex:
-            if isinstance(ex, TypeError) and "unhashable" not in str(ex) and "argument" not in str(ex):
-                raise
-            raise BuildError(f"malformed expression {e!r}: {ex}")
         raise BuildError(f"unknown operator {k}")
 
     # -- actions / problems
@@ -288,7 +312,7 @@ def render_type(t):
     return ("type", str(t))
 
 
-def render(n):
+def render(n, sort_vars=True):
     """Canonical rendering of an FNode as nested tuples; independent of node ids,
     environments and set iteration order."""
     memo = {}
@@ -315,7 +339,9 @@ def render(n):
         elif nt == OK.OBJECT_EXP:
             r = ("o", x.object().name)
         elif nt in (OK.EXISTS, OK.FORALL):
-            vs = tuple(sorted((v.name, render_type(v.type)) for v in x.variables()))
+            vs = tuple((v.name, render_type(v.type)) for v in x.variables())
+            if sort_vars:
+                vs = tuple(sorted(vs))
             r = (nt.name.lower(), vs, go(x.arg(0)))
         else:
             r = (nt.name.lower(),) + tuple(go(a) for a in x.args)
